@@ -71,23 +71,19 @@ func (r *Run) c11GraphLookups() {
 				if l.Blocks[s] {
 					continue
 				}
-				// leaving: the conditions on the way must say u != nil && v != nil
-				n := 0
-				gs := append(Guards(b), Guard{})
-				if iff, ok := b.Instrs[len(b.Instrs)-1].(*ssa.If); ok {
-					gs[len(gs)-1] = Guard{iff.Cond, si == 0, b}
-				}
-				for _, g := range gs {
+				// leaving: the conditions on the way must say u != nil && v != nil, in whatever form the two
+				// facts are tested (`x != nil` taken, `x == nil` / `nil == x` not taken, e.g. a loop condition
+				// `... && (u == nil || v == nil)`), about two different variables
+				var found []ssa.Value
+				for _, g := range c11CondsLeaving(b, si) {
 					if g.Cond == nil || !l.Blocks[g.At] {
 						continue
 					}
-					if bo, ok := g.Cond.(*ssa.BinOp); ok && bo.Op.String() == "!=" && g.True {
-						if c, ok := bo.Y.(*ssa.Const); ok && c.Value == nil {
-							n++
-						}
+					if v := c11NonNilFact(g); v != nil {
+						found = append(found, v)
 					}
 				}
-				if n < 2 {
+				if !c11TwoVariables(found) {
 					okStop = false
 				}
 			}
